@@ -108,3 +108,73 @@ def _re_sub_builder(ts):
 def re_sub(pattern, repl, flags, s):
     """re.sub(pattern, repl, s, flags=flags) (trusted: re)."""
     return _re.sub(pattern, repl, s, flags=flags)
+
+
+# ------------------------------------------------------------------ abstract file system / paths (C17)
+import os.path as _osp
+
+
+def _app_builder(name, argsorts, ret):
+    def build(ts):
+        _smt.CTX.fun(name, argsorts, ret)
+        return _smt.CTX.app(name, *ts)
+    return build
+
+
+@_native('(str) -> bool', _app_builder('fs_exists', ['String'], 'Bool'))
+def fs_exists(p):
+    return _osp.exists(p)
+
+
+@_native('(str) -> bool', _app_builder('fs_isfile', ['String'], 'Bool'))
+def fs_isfile(p):
+    return _osp.isfile(p)
+
+
+@_native('(str, str) -> str', _app_builder('path_join', ['String', 'String'], 'String'))
+def path_join(a, b):
+    return _osp.join(a, b)
+
+
+@_native('(str) -> str', _app_builder('path_dirname', ['String'], 'String'))
+def path_dirname(p):
+    return _osp.dirname(p)
+
+
+@_native('(str) -> str', _app_builder('path_basename', ['String'], 'String'))
+def path_basename(p):
+    return _osp.basename(p)
+
+
+@rec('(str, str) -> bool')
+def init_chain(subdir, base):
+    """Every directory from subdir up to (excluding) base -- or up to the empty path -- holds an __init__.py:
+    the rule that makes a path below a search-path entry importable as part of a regular package."""
+    if subdir == '' or subdir == base:
+        return True
+    return fs_exists(path_join(subdir, '__init__.py')) and init_chain(path_dirname(subdir), base)
+
+
+@_uninterp('(str) -> int',
+           facts=["result >= 0",
+                  "implies(fs_exists(path_join(p, '__init__.py')), path_depth(path_dirname(p)) < result)"],
+           note="number of components of a path; assumption used for termination: a directory holding an __init__.py is not its own parent")
+def path_depth(p):
+    return len([c for c in p.split('/') if c])
+
+
+def normalize_modpath_spec(modpath, hide_init, hide_main):
+    """__init__/__main__ normalisation: a path whose LAST COMPONENT is __init__.py denotes its directory (hide_init), or a package
+    directory denotes its __init__.py (not hide_init); a last component __main__.py next to an __init__.py denotes the package."""
+    m = modpath
+    hm = hide_main
+    if hide_init:
+        if path_basename(m) == '__init__.py':
+            m = path_dirname(m)
+            hm = True
+    else:
+        if fs_exists(path_join(m, '__init__.py')):
+            m = path_join(m, '__init__.py')
+    if hm and path_basename(m) == '__main__.py' and fs_exists(path_join(path_dirname(m), '__init__.py')):
+        return path_dirname(m)
+    return m
